@@ -4,6 +4,7 @@ from plan import H, nlimbs, nbytes
 FMT = ("alloc::fmt::format", "stubs::format_stub")
 ALL = [0, 1, 7, 8, 16, 60, 64, 65, 72, 128]
 QUICK = [0, 8, 64, 65]
+NUMERIC_OK = []   # NUMERIC round trip at 16 bits: unwinding of the digit loops not decided in 500 s - not registered
 
 
 def harnesses():
@@ -35,12 +36,12 @@ def harnesses():
         add("serde_binary", "c16::serde_binary::<%d,%d,%d,%d>" % (b, l, nb, nb + 1),
             ["Serialize (binary form)", "Deserialize (binary visitor)"])
         if b in (8, 16, 65):
-            for t, tn in enumerate(["bool", "int2", "int4", "int8", "oid", "money", "bytea", "bit", "varbit"]):
-                if b == 0 and tn == "bit":
+            for t, tn in enumerate(["bool", "int2", "int4", "int8", "oid", "money", "bytea", "bit", "varbit", "numeric"]):
+                if tn == "numeric" and b not in NUMERIC_OK:
                     continue
                 add("pg_roundtrip_" + tn, "c16::pg_roundtrip::<%d,%d,%d>" % (b, l, t),
-                    ["ToSql::to_sql(%s)" % tn.upper(), "FromSql::from_sql(%s)" % tn.upper()], tier="thorough",
-                    timeout=3600, domain="FULL value; the round trip is asserted whenever to_sql succeeds",
+                    ["ToSql::to_sql(%s)" % tn.upper(), "FromSql::from_sql(%s)" % tn.upper()],
+                    tier="quick" if (b == 16 and tn != "numeric") else "thorough", timeout=3600, domain="FULL value; the round trip is asserted whenever to_sql succeeds",
                     covers_required=["encodes"])
     out.append(H("c16_primitive_types", "C16", "c16::primitive_types", unwind=40, tier="quick", timeout=1200,
                  inst="U128, U256, B128, B256 <-> primitive_types::{U128, U256, H128, H256}", stubs=[FMT],
